@@ -99,13 +99,26 @@ def corrupt_scenarios(rnd, quick):
     for _ in range(260 if quick else 8000):
         ns, slot, blk = rnd.choice(geos)
         s = session.Scn(ns, slot, blk)
-        style = rnd.choice(["headers", "headers", "pair", "pair+table", "random", "pair-oversize"])
+        style = rnd.choice(["headers", "headers", "pair", "pair+table", "random", "pair-oversize", "pair-junk-stride"])
         for i in range(ns):
             if style == "random":
                 s.add("raw %x %s" % (i * slot, bytes(rnd.getrandbits(8) for _ in range(28)).hex()))
             elif rnd.random() < 0.8:
                 s.add("raw %x %s" % (i * slot, rand_header(rnd, slot).hex()))
-        if style == "pair-oversize":
+        if style == "pair-junk-stride":
+            # a well-formed pair with more fragments than one stride of the status-table scan (256 / 128 entries) and one byte that is
+            # neither erased nor the mark, in any stride
+            ns, slot, blk = rnd.choice([(4, 65536, 4096), (4, 1048576, 65536), (5, 21504, 512)])
+            s = session.Scn(ns, slot, blk)
+            f, p = rnd.sample(range(ns), 2)
+            n = rnd.choice([129, 257, 300, 513, 700, 1000, 2048]); n = min(n, slot - session.DRO)
+            hi = 0xFFFFFF00
+            for sl, w in ((f, [0, hi, 1, n]), (p, [1, hi + 1, 1, min(2047, session.max_l(slot, 1))])):
+                s.add("raw %x %s" % (sl * slot, b"".join(x.to_bytes(4, "little") for x in w + [0xFFFFFFFF] * 3).hex()))
+            tb = bytearray(rnd.choice([0xFF, 0x33]) for _ in range(n))
+            tb[rnd.randrange(n)] = rnd.choice([0x00, 0x7B, 0x32, 0xFE])
+            s.add("raw %x %s" % (f * slot + 0x400, bytes(tb).hex()))
+        elif style == "pair-oversize":
             # a well-formed in-progress pair whose parity header announces more fragments than the slot has room for (single-erasure
             # layout: (slot - data offset) / size), and a parity status table with as many / more marks than that
             f, p = rnd.sample(range(ns), 2)
